@@ -12,7 +12,7 @@ for d in "$@"; do n=$(basename $d | tr '-' '_' | tr 'A-Z' 'a-z'); demo=$(ls $d/d
 (cd $wt && timeout 7200 cargo test --offline -p $crate $names > /tmp/seedbatch-clean.log 2>&1)
 for d in "$@"; do
   d=$(realpath $d); n=$(basename $d | tr '-' '_' | tr 'A-Z' 'a-z'); res=$d/confirm.txt; : > $res
-  echo "demo on clean tree: $(grep -A3 "Running tests/vs_$n.rs" /tmp/seedbatch-clean.log | grep 'test result' | head -1)" >> $res
+  echo "demo on clean tree: $(awk "/Running tests\/vs_$n.rs/{f=1} f&&/test result/{print; exit}" /tmp/seedbatch-clean.log)" >> $res
   prop=$(basename $d | sed 's/-.*//')
   if (cd $wt && git apply $d/patch.diff 2>/dev/null); then
     (cd $wt && timeout 7200 cargo test --offline -p $crate --test vs_$n > /tmp/seedbatch-mut.log 2>&1); echo "demo with change: rc=$? $(grep 'test result' /tmp/seedbatch-mut.log | tail -1)" >> $res
